@@ -11,6 +11,13 @@ def run(tier, seed):
     n = 200 if tier == "quick" else 3000
     cases = sim_common.make_cases("C07", tier, seed, n, variants=(0, 0, 1, 0), fp_levels=(2, 3, 1), sizes=(0, 0, 0, 1),
                                   threads=[2, 3, 4, 8, 2, 16, 5, 12], gvts=[0, 20, 1000, 300, 5000])
+    # half of the cases: a sparse LP (done after 1-2 rarely arriving events) and many threads, so that a cancelled terminating event leaves
+    # an LP that is counted as done for a long time while its state says otherwise
+    for i, c in enumerate(cases):
+        if i % 2:
+            c["env"] = {"VM_FORCE_SPARSE": "1"}
+            c["threads"] = (8, 6, 12, 4)[(i // 2) % 4]
+            c["fp"] = 3 if i % 4 == 1 else 2
     sim_common.run_sim_cases(chk, cases, timeout=300)
     chk.rule = ("one case = (generated model: predicates true at init, first true after a handful of events (often at timestamp 0), targets reached "
                 "speculatively and rolled back, unbalanced LP-to-thread layouts incl. more threads than LPs; termination-time runs); non-trivial / distinct as C01")
